@@ -64,6 +64,13 @@ def run_cases(chk, binp, cases, pf_ok, pf):
             dist["other"] += 1
         failed = judge(chk, j, stats)
         m = j["model"]
+        if j.get("in_fragment"):
+            stats["in_fragment"] = stats.get("in_fragment", 0) + 1
+            # inside the proved fragment the model's verdict is the draft-4 verdict over the same arithmetic (theorem): a
+            # difference here means the decision procedure or the extraction is wrong, not the code
+            if m is not None and m.get("outcome") == "ok" and j.get("d4f") is not None and m.get("valid") != j["d4f"]:
+                chk.violation("the extracted model contradicts the agreement theorem inside its fragment",
+                              {"theorem_or_correspondence": "C01_agreement_on_the_clean_fragment_partial vs run_schema", "case": j["case"]}, no_input=True)
         if m is not None and m["outcome"] != "decode-error":
             tie_ok = (m["outcome"] == g["outcome"] or (m["outcome"] == "panic" and g["outcome"] == "panic")) and \
                 (g["outcome"] != "ok" or m.get("valid") == g.get("valid"))
@@ -111,6 +118,7 @@ def run_cases(chk, binp, cases, pf_ok, pf):
         "samples": [J[i]["case"] for i in (0, len(J) // 2, len(J) - 1)],
         "verdict_split": dist, "judged_against_draft4": stats["judged"], "outside_supported_class": stats["unsupported"],
         "known_finding_cases": stats["known"], "tie_mismatches": len(stats["tie"]),
+        "cases_inside_the_proved_fragment": stats.get("in_fragment", 0),
         "keyword_histogram": R.keyword_histogram([j["case"] for j in J]),
     })
     chk.assumptions = ["numbers: the L0 oracle uses exact decimal arithmetic on the literals; the L1 model uses Flocq binary64",
